@@ -342,6 +342,116 @@ class Flow:
         self.sink_nodes.setdefault((opt, callee, slot), node)
 
 
+# ---------------------------------------------------------------------------------------------------------------
+def _op_chain(f: FuncInfo, leaf: ast.AST, stop: ast.AST) -> Optional[List[Tuple[str, ast.AST]]]:
+    """Operations applied to the value read at ``leaf`` on its way up to ``stop`` (a statement or a call argument root).
+    None when the value is only tested (comparison / condition), i.e. it is not what is delivered."""
+    ops: List[Tuple[str, ast.AST]] = []
+    cur = leaf
+    par = f.module.parents.get(cur)
+    while par is not None and cur is not stop:
+        if isinstance(par, ast.Compare):
+            return None
+        if isinstance(par, (ast.If, ast.While, ast.IfExp)) and par.test is cur:
+            return None
+        if isinstance(par, ast.Attribute) and par.value is cur:
+            gp = f.module.parents.get(par)
+            if isinstance(gp, ast.Call) and gp.func is par:
+                ops.append((f".{par.attr}()", gp))
+                cur = gp
+                par = f.module.parents.get(cur)
+                continue
+            ops.append((f".{par.attr}", par))
+        elif isinstance(par, ast.Call):
+            if cur is not par.func:
+                ops.append((f"{norm(par.func)}(..)", par))
+        elif isinstance(par, ast.keyword):
+            pass
+        elif isinstance(par, ast.UnaryOp):
+            ops.append((type(par.op).__name__.lower(), par))
+        elif isinstance(par, ast.BoolOp):
+            others = [norm(v) for v in par.values if v is not cur]
+            ops.append((f"{type(par.op).__name__.lower()} {'/'.join(others)[:30]}", par))
+        elif isinstance(par, ast.BinOp):
+            ops.append((f"binop {type(par.op).__name__}", par))
+        elif isinstance(par, (ast.JoinedStr, ast.FormattedValue)):
+            if isinstance(par, ast.JoinedStr):
+                ops.append((f"f-string {norm(par)[:40]}", par))
+        elif isinstance(par, ast.Subscript):
+            if par.value is cur:
+                ops.append(("[" + ("slice" if isinstance(par.slice, ast.Slice) else norm(par.slice)[:12]) + "]", par))
+            else:
+                ops.append((f"index into {norm(par.value)[:30]}", par))
+        elif isinstance(par, (ast.ListComp, ast.GeneratorExp, ast.SetComp, ast.DictComp)):
+            if isinstance(par, ast.SetComp):
+                ops.append(("set-comprehension", par))
+        elif isinstance(par, ast.comprehension):
+            for c in par.ifs:
+                if c is cur:
+                    return None
+        elif isinstance(par, ast.Set):
+            ops.append(("set-display", par))
+        if par is stop:
+            break
+        cur = par
+        par = f.module.parents.get(cur)
+    return ops
+
+
+def value_ops(ctx: Ctx, fl: "Flow") -> Dict[str, Dict[str, Tuple[FuncInfo, ast.AST]]]:
+    """option -> {operation descriptor: (function, node)} over every hop and sink of the option."""
+    out: Dict[str, Dict[str, Tuple[FuncInfo, ast.AST]]] = {}
+    for f in fl.funcs:
+        for st in walk_no_nested(f.node):
+            if not isinstance(st, ast.stmt):
+                continue
+            if isinstance(st, (ast.FunctionDef, ast.AsyncFunctionDef, ast.ClassDef)):
+                continue
+            roots: List[ast.AST] = []
+            if isinstance(st, (ast.Assign, ast.AnnAssign, ast.AugAssign)) and getattr(st, "value", None) is not None:
+                roots.append(st.value)
+            elif isinstance(st, ast.For):
+                roots.append(st.iter)
+            elif isinstance(st, (ast.Expr, ast.Return)) and st.value is not None:
+                roots.append(st.value)
+            elif isinstance(st, ast.With):
+                roots.extend(i.context_expr for i in st.items)
+            for root in roots:
+                for x in ast.walk(root):
+                    if not (isinstance(x, (ast.Name, ast.Attribute)) and isinstance(getattr(x, "ctx", None), ast.Load)):
+                        continue
+                    # outermost attribute chain only (self.preamble, not `self`)
+                    par = f.module.parents.get(x)
+                    if isinstance(x, ast.Name) and isinstance(par, ast.Attribute) and par.value is x and x.id in ("self", "namespace"):
+                        continue
+                    t: Dict[str, Set[Optional[str]]] = {}
+                    if isinstance(x, ast.Attribute) and isinstance(x.value, ast.Name) and x.value.id == "namespace":
+                        t = {x.attr: {None}}
+                    else:
+                        for c in fl.read_cells(f, x):
+                            for o, ks in fl.taint.get(c, {}).items():
+                                t.setdefault(o, set()).update(ks)
+                    if not t:
+                        continue
+                    chain = _op_chain(f, x, root)
+                    if chain is None:
+                        continue
+                    # operations applied before the value enters the library count; the library call and whatever is
+                    # done with its result do not
+                    kept = []
+                    for d, node in chain:
+                        if isinstance(node, ast.Call) and not d.startswith("."):
+                            tg = ctx.cg.resolve_call(f, f.module, node)
+                            if any((isinstance(tt, FuncInfo) and tt not in fl.funcs and not tt.relpath.endswith("cli.py"))
+                                   or (isinstance(tt, ClassInfo) and not tt.module.relpath.endswith("cli.py")) for tt in tg):
+                                break
+                        kept.append((d, node))
+                    for o in t:
+                        for d, node in kept:
+                            out.setdefault(o, {}).setdefault(d, (f, node))
+    return out
+
+
 def rule_optflow2(ctx: Ctx) -> RuleResult:
     rr = RuleResult("OPTFLOW-2/5", "every option value reaches its library parameter, independently of other options",
                     floor=12)
@@ -869,3 +979,229 @@ def rule_optflow_dictkeys(ctx: Ctx) -> RuleResult:
     """C13's CLI half: both dict-key options reach the generator, independently of each other."""
     return _optflow_subset(ctx, "OPTFLOW-dk", "--dict-keys-regex and --dict-keys-fields both reach the generator",
                            ["dict_keys_regex", "dict_keys_fields"])
+
+
+# ---------------------------------------------------------------------------------------------------------------
+CONTENT_METHODS = {"lower", "upper", "strip", "lstrip", "rstrip", "casefold", "title", "capitalize", "swapcase", "replace",
+                   "translate", "encode", "decode", "format", "zfill", "center", "ljust", "rjust", "removeprefix",
+                   "removesuffix", "expandtabs", "split", "rsplit", "splitlines", "partition", "rpartition", "join",
+                   "sort", "reverse"}
+CONTENT_FUNCS = {"sorted", "reversed", "set", "frozenset", "str.lower", "str.upper", "str.strip", "re.escape", "repr", "ascii",
+                 "os.path.normpath", "os.path.abspath", "os.path.basename", "unidecode", "unicodedata.normalize"}
+# operations applied today, each confirmed by reading cli.py (option -> operation -> why it is part of the documented mapping)
+VALUE_OPS_OK: Dict[str, Dict[str, str]] = {
+    "code_generator": {".rsplit()": "dotted path of the generator class is split into module and attribute"},
+    "code_generator_kwargs": {".split()": "NAME=VALUE pairs", "[slice]": "quotes around a quoted value are removed"},
+    "dict_keys_regex": {"string-building": "documented anchoring of command-line patterns (RX-1 decides its shape)"},
+    "merge": {".split()": "policy_argument syntax", "[0]": "policy name", "[slice]": "policy arguments"},
+    "preamble": {".strip()": "documented trimming of the preamble (SHAPE rules decide it)"},
+    "output": {"string-building": "message naming the output file"},
+    "model": {"string-building": "-m entries get an empty lookup prepended (list concatenation)"},
+    "list": {"string-building": "shared with -m in the same expression"},
+}
+ARGPARSE_TYPES_OK = {None, "str", "int", "float", "Path", "pathlib.Path"}
+
+
+def _content_op(d: str) -> Optional[str]:
+    if d == ".format()":
+        return "string-building"
+    if d.startswith(".") and d.endswith("()"):
+        return d if d[1:-2] in CONTENT_METHODS else None
+    if d.endswith(".join(..)"):
+        return ".join()"
+    if d.endswith("(..)"):
+        return d if d[:-4] in CONTENT_FUNCS else None
+    if d.startswith("f-string") or d in ("binop Mod", "binop Add", ".format()"):
+        return "string-building"
+    if d.startswith("binop"):
+        return d
+    if d in ("[slice]",) or (d.startswith("[") and d[1:-1].lstrip("-").isdigit()):
+        return d
+    if d in ("set-comprehension", "set-display"):
+        return d
+    return None
+
+
+def rule_optflow6(ctx: Ctx, only=None, rule_id: str = "OPTFLOW-6") -> RuleResult:
+    """Option values reach the library as typed, apart from the documented rewrites."""
+    rr = RuleResult(rule_id, "option values are delivered verbatim apart from the documented rewrites",
+                    floor=10 if only is None else 2 * len(only))
+    fl = Flow(ctx)
+    ops = value_ops(ctx, fl)
+    opts = argparse_options(ctx)
+    if only is not None:
+        missing = [d for d in only if d not in opts]
+        if missing:
+            raise AnalysisError(f"{rule_id}: option(s) {missing} no longer defined by the argument parser")
+        opts = {d: o for d, o in opts.items() if d in only}
+    st_t = "argparse converts the option with a plain constructor only (no normalising callable)"
+    for dest, o in sorted(opts.items()):
+        rr.instances += 1
+        node = o["node"]
+        kw = {k.arg: k.value for k in node.keywords if k.arg}
+        tv = norm(kw["type"]) if "type" in kw else None
+        ok = tv in ARGPARSE_TYPES_OK
+        rr.ob(CLI, "Cli._create_argparser", f"--{dest}: type={tv}", st_t, DISCHARGED if ok else VIOLATED,
+              "plain" if ok else f"`type={tv}` rewrites what the user typed before the library sees it", node.lineno)
+    st = ("between the parsed command line and the library call, the option's value is only taken apart or wrapped in "
+          "the documented way; it is not re-spelled, re-ordered or merged")
+    for dest in sorted(opts):
+        seen: Dict[str, Tuple[FuncInfo, ast.AST]] = {}
+        for d, (f, node) in ops.get(dest, {}).items():
+            c = _content_op(d)
+            if c is not None:
+                seen.setdefault(c, (f, node))
+        rr.instances += 1
+        extra = {c: v for c, v in seen.items() if c not in VALUE_OPS_OK.get(dest, {})}
+        if not extra:
+            rr.ob(CLI, "Cli", f"--{dest}", st, DISCHARGED,
+                  "operations on the value: " + (", ".join(sorted(seen)) or "none"), opts[dest]["node"].lineno)
+        for c, (f, node) in sorted(extra.items()):
+            rr.ob(f.relpath, f.qualname, norm(node)[:90], st, VIOLATED,
+                  f"`{c}` is applied to the value of --{dest.replace('_', '-')} on its way to the library; the library "
+                  f"called directly with what the user typed would see a different value", node.lineno)
+    return rr
+
+
+def rule_path1(ctx: Ctx) -> RuleResult:
+    """process_path: literal *prefix* = directory, the remaining *suffix* = glob pattern; components keep their order."""
+    rr = RuleResult("PATH-1", "a path pattern is split into a literal prefix and a pattern suffix", floor=1)
+    f = ctx.prog.func(CLI, "process_path")
+    mod = f.module
+    rr.instances += 1
+    st = ("the directory searched is the longest wildcard-free prefix of the pattern and the glob is what follows it, "
+          "component order preserved (so `a/*/b.json` searches `a` for `*/b.json`)")
+    # the list of components
+    comps = None
+    for n in walk_no_nested(f.node):
+        if isinstance(n, ast.Assign) and isinstance(n.value, ast.Call) and norm(n.value.func).endswith("path_split") \
+                and isinstance(n.targets[0], ast.Name):
+            comps = n.targets[0].id
+    if comps is None:
+        raise AnalysisError("PATH-1: process_path no longer splits its argument with path_split")
+    problems = []
+    prefix_ok = False
+    for n in ast.walk(f.node):
+        if isinstance(n, (ast.ListComp, ast.GeneratorExp, ast.SetComp)):
+            par_ = mod.parents.get(n)
+            if isinstance(par_, ast.Call) and norm(par_.func) in ("next", "any", "all") and par_.args and par_.args[0] is n:
+                continue        # a search for the first wildcard / a yes-no question, not a selection of components
+            for g in n.generators:
+                if comps in names_in(g.iter) and g.ifs:
+                    problems.append((n, f"`{norm(n)[:60]}` picks components by a predicate, wherever they stand: literal parts "
+                                       f"behind a wildcard are moved in front of it"))
+        if isinstance(n, ast.Call) and norm(n.func) in ("filter", "itertools.filterfalse", "filterfalse") and \
+                any(comps in names_in(a) for a in n.args):
+            problems.append((n, f"`{norm(n)[:60]}` filters the components instead of cutting the list once"))
+        if isinstance(n, ast.Call) and norm(n.func) in ("sorted", "reversed", "set") and any(comps in names_in(a) for a in n.args):
+            problems.append((n, f"`{norm(n)[:60]}` re-orders the components"))
+        if isinstance(n, ast.Call) and norm(n.func).split(".")[-1] in ("takewhile", "dropwhile") and \
+                any(comps in names_in(a) for a in n.args):
+            prefix_ok = True
+        if isinstance(n, ast.Subscript) and isinstance(n.value, ast.Name) and n.value.id == comps and isinstance(n.slice, ast.Slice):
+            prefix_ok = True
+    if problems:
+        for n, why in problems:
+            rr.ob(f.relpath, f.qualname, norm(n)[:80], st, VIOLATED, why, n.lineno)
+    elif prefix_ok:
+        rr.ob(f.relpath, f.qualname, "process_path", st, DISCHARGED, "the component list is cut once (takewhile / slice)", f.node.lineno)
+    else:
+        raise AnalysisError("PATH-1: cannot see how process_path divides the components (no takewhile, slice or comprehension)")
+    return rr
+
+
+def rule_optflow6_disable(ctx: Ctx) -> RuleResult:
+    """C09's CLI half: the names given to --disable-str-serializable-types reach remove_by_name as typed."""
+    return rule_optflow6(ctx, only=["disable_str_serializable_types"], rule_id="OPTFLOW-6d")
+
+
+def rule_optflow6_dictkeys(ctx: Ctx) -> RuleResult:
+    return rule_optflow6(ctx, only=["dict_keys_regex", "dict_keys_fields"], rule_id="OPTFLOW-6k")
+
+
+# ---------------------------------------------------------------------------------------------------------------
+def rule_reset1(ctx: Ctx, only_attrs=None, rule_id: str = "RESET-1") -> RuleResult:
+    """Every option cell of the Cli object is re-initialised by each parse: nothing survives from an earlier command line."""
+    rr = RuleResult(rule_id, "each parse of a command line rewrites every option stored on the Cli object",
+                    floor=4 if only_attrs is None else len(only_attrs))
+    fl = Flow(ctx)
+    cells = sorted({c[1] for c in fl.taint if c[0] == "attr" and fl.taint[c]})
+    if only_attrs is not None:
+        cells = [c for c in cells if c in only_attrs]
+    if len(cells) < (4 if only_attrs is None else 1):
+        raise AnalysisError(f"{rule_id}: only {len(cells)} option attributes found on Cli")
+    MUT = ("append", "extend", "add", "update", "insert", "setdefault")
+    for attr in cells:
+        for f in fl.funcs:
+            if f.name == "__init__":
+                continue
+            stores, muts, resets = [], [], []
+            for n in walk_no_nested(f.node):
+                if isinstance(n, (ast.Assign, ast.AnnAssign)) and getattr(n, "value", None) is not None:
+                    tgs = n.targets if isinstance(n, ast.Assign) else [n.target]
+                    for t in tgs:
+                        for t1 in (t.elts if isinstance(t, (ast.Tuple, ast.List)) else [t]):
+                            if norm(t1) == f"self.{attr}":
+                                stores.append(n)
+                            elif isinstance(t1, ast.Subscript) and norm(t1.value) == f"self.{attr}":
+                                muts.append(n)
+                elif isinstance(n, ast.AugAssign) and norm(n.target) == f"self.{attr}":
+                    muts.append(n)
+                elif isinstance(n, ast.Call) and isinstance(n.func, ast.Attribute) and norm(n.func.value) == f"self.{attr}":
+                    if n.func.attr in MUT:
+                        muts.append(n)
+                    elif n.func.attr == "clear":
+                        resets.append(n)
+            if not stores and not muts:
+                continue
+            cfg = ctx.cfg(f)
+            rr.instances += 1
+            st = (f"`self.{attr}` holds what this command line says after {f.qualname} returns, whatever an earlier call "
+                  f"on the same object stored there")
+            if muts:
+                dom = cfg.dominators()
+                init_nodes = {cfg.node_containing(x, f.module.parents) for x in stores + resets}
+                bad = [m for m in muts if not (dom.get(cfg.node_containing(m, f.module.parents), set()) & init_nodes)]
+                if bad:
+                    rr.ob(f.relpath, f.qualname, norm(bad[0])[:80], st, VIOLATED,
+                          f"`{norm(bad[0])[:60]}` adds to `self.{attr}` without an assignment or clear() before it on every "
+                          f"path: entries from an earlier parse stay in effect", bad[0].lineno)
+                    continue
+                rr.ob(f.relpath, f.qualname, norm(muts[0])[:80], st, DISCHARGED,
+                      "the container is reset before it is filled", muts[0].lineno)
+                continue
+            # plain stores only: some store lies on every non-exceptional path to the exit
+            blocked = {cfg.node_containing(x, f.module.parents) for x in stores}
+            seen, stack = set(), [cfg.entry]
+            leak = False
+            while stack:
+                a = stack.pop()
+                if a in seen or a in blocked:
+                    continue
+                seen.add(a)
+                if a == cfg.exit:
+                    leak = True
+                    break
+                for b, lab in cfg.succ[a]:
+                    if lab != "exc":
+                        stack.append(b)
+            if leak:
+                rr.ob(f.relpath, f.qualname, norm(stores[0])[:80], st, VIOLATED,
+                      f"`self.{attr}` is assigned only on some paths through {f.name}: when the option is absent the value of "
+                      f"an earlier parse on the same object stays in effect", stores[0].lineno)
+            else:
+                rr.ob(f.relpath, f.qualname, norm(stores[0])[:80], st, DISCHARGED, "assigned on every path", stores[0].lineno)
+    return rr
+
+
+def rule_reset1_dictkeys(ctx: Ctx) -> RuleResult:
+    return rule_reset1(ctx, only_attrs=["dict_keys_regex", "dict_keys_fields"], rule_id="RESET-1k")
+
+
+def rule_reset1_merge(ctx: Ctx) -> RuleResult:
+    return rule_reset1(ctx, only_attrs=["merge_policy"], rule_id="RESET-1m")
+
+
+def rule_optflow_structure(ctx: Ctx) -> RuleResult:
+    """C12's CLI half: -s/--structure selects the layout function for every framework."""
+    return _optflow_subset(ctx, "OPTFLOW-s", "--structure reaches generate_code's structure, whatever the framework", ["structure"])
